@@ -102,6 +102,10 @@ pub trait Scenario: Sync {
     fn shrink(&self, _plan: &Plan) -> Vec<Plan> {
         vec![]
     }
+    /// property charged with a library panic that escapes the scenario's own guards
+    fn panic_prop(&self) -> &'static str {
+        "C03"
+    }
 }
 
 // ---------------------------------------------------------------------------------
